@@ -688,7 +688,7 @@ func TestPropTransport(t *testing.T) {
 		c.Recs = genRecs(rt, format, true)
 		c.L = genLayout(rt, format)
 		c.Big = (format == "fasta" || format == "fastq") && rapid.IntRange(0, 7).Draw(rt, "big") == 0
-		if (format == "fasta" || format == "fastq") && rapid.IntRange(0, 5).Draw(rt, "long_first") == 0 {
+		if (format == "fasta" || format == "fastq") && rapid.IntRange(0, 2).Draw(rt, "long_first") == 0 {
 			// a long read first: what the format detection sees of the file is one title line and part of a sequence line
 			n := rapid.IntRange(3000, 40000).Draw(rt, "long_first_len")
 			c.Recs[0].Seq = strings.Repeat(genSeqText(rt, "long_unit", 53, false), n/53+1)[:n]
